@@ -109,12 +109,13 @@ _ALL = {
         technique="path enumeration + symbolic identity detection; parameter-forwarding rule over resolved call sites",
     ),
     "C06": dict(
-        want=["K1", "K2", "P6", "P8", "K6", "U1", "F1"],
+        want=["K1", "K2", "P6", "P8", "K6", "U1", "F1", "V1"],
         explanation=("Decides that no information flows from a null-key row into group state: every per-group state access "
                      "indexed by a code is dominated by a null test (K1); every code re-mapping preserves -1 (K2); a null "
                      "slot is allocated wherever codes index result arrays (P6); null-key rows get a constant marker in "
                      "cumulative outputs (P8); row counters advance on skipped rows (K6)."
-                     ' Every factorization route gives a null key the code -1 (F1): a key that is given an ordinary code forms a group.'),
+                     ' Every factorization route gives a null key the code -1 (F1): a key that is given an ordinary code forms a group.'
+                     ' value_counts(normalize=True) divides by the total of the counts, never by a number of rows (V1).'),
         not_decided=["third-party null detection in the delegated factorization routes"],
         technique="fact-walker dominance over inferred code variables; null-preservation idiom table",
     ),
@@ -131,7 +132,7 @@ _ALL = {
         technique="taint analysis of index spaces; typestate; path rule",
     ),
     "C08": dict(
-        want=["T1", "U1", "U2", "K1@cumulative", "K3@cumulative", "K4@cumulative", "T3", "P1", "P8", "D4", "K7", "P28", "W5"],
+        want=["T1", "U1", "U2", "K1@cumulative", "K3@cumulative", "K4@cumulative", "T3", "P1", "P8", "D4", "K7", "P28", "W5", "K4b", "T5"],
         explanation=("Decides the structure of the per-group prefix reduction: reducer tables (T1, skip and non-skip pairs); "
                      "the running value is read from the output at the group's previous accepted row (U1) and per-group "
                      "bookkeeping is updated only on accepted rows (U2); null keys skipped (K1), masked rows do not interfere "
@@ -140,7 +141,8 @@ _ALL = {
                      ' Also: the cumulative count array is at least 32 bit (K4).'
                      ' The cumulative kernels receive boolean masks only (K7).'
                      ' Converted cumulative results are not passed through dtype-changing pandas operations (P28).'
-                     ' Null tests in the dtype-generic kernels use is_null (W5).'),
+                     ' Null tests in the dtype-generic kernels use is_null (W5).'
+                     ' Per-group bookkeeping arrays that hold row positions are 64-bit, not of the code dtype (K4b); int64 views of temporal values are not routed through float64 (T5).'),
         not_decided=["'last cumulative value equals the reduction' as a value relation (follows by induction, not performed)"],
         technique="GCNF tables; loop-body obligations; path pairing rule",
     ),
@@ -158,7 +160,7 @@ _ALL = {
         technique="fact walker, path enumeration, dtype-provenance classification, dispatch folding",
     ),
     "C10": dict(
-        want=["K1@ema", "E1", "E2", "E3", "A2", "K3@ema", "M7", "E4", "E5", "E6", "E7", "P24", "K7", "P25"],
+        want=["K1@ema", "E1", "E2", "E3", "A2", "K3@ema", "M7", "E4", "E5", "E6", "E7", "P24", "K7", "P25", "E8"],
         explanation=("Decides the periphery of the EMA, not the closed form: null-key guard in the grouped kernels (K1); "
                      "invalid rows read the group's own carried value (E2); the halflife->alpha conversion is the same "
                      "function of the raw parameter in both entry points (E1); the alignment decorator names real "
@@ -166,7 +168,7 @@ _ALL = {
                      ' Also: the time-weighted kernel advances the clock exactly where it decays (E3, both directions); the alpha kernels multiply the running state by beta exactly once on every row path (E4); row-aligned inputs are re-ordered by one indexer (M7); on every valid-row path of the four adjusted kernels out = (x + R)/(1 + W) followed by R += x and W += 1 (E5).'
                      ' ema / ema_grouped dispatch only to the kernels of their own family (E6); the per-group clock of the timed kernel is an integer array (E7); integer views of timestamps are taken only after an explicit unit normalisation and zones are never dropped with tz_localize(None) (P24).'
                      ' The grouped EMA kernels receive boolean masks only (K7).'
-                     ' ema(index_by_groups=True) repeats the group codes with counts in label order (P25).'),
+                     ' ema(index_by_groups=True) repeats the group codes with counts in label order (P25); the codes handed to the kernel are the grouping\'s own codes, never one level of an index (E8).'),
         not_decided=["the closed form, alpha/beta arithmetic, time decay, equality of grouped and ungrouped series"],
         technique="fact walker; expression normal-form comparison; decorator-name rule",
     ),
@@ -184,13 +186,14 @@ _ALL = {
         technique="path rules over _apply_gb_reduction / __init__",
     ),
     "C12": dict(
-        want=["P1", "T2", "T3", "K5", "P10", "K4b", "P12", "F1b", "P7b", "M7", "P17", "D7c", "M9", "P24", "O1", "P28", "P26b"],
+        want=["P1", "T2", "T3", "K5", "P10", "K4b", "P12", "F1b", "P7b", "M7", "P17", "D7c", "M9", "P24", "O1", "P28", "P26b", "T5", "M1", "M2"],
         explanation=("Decides the dtype/exactness clauses: temporal cast<->restore pairing on all paths (P1); selection "
                      "reducers never do arithmetic on values (T2-L4); accumulator dtype table (T3); dtype provenance in "
                      "rolling selection paths (K5); unit-preserving restoration (P10)."
                      ' Also: identifier widths (K4b); polars NaT preservation (P12); RangeIndex step (F1b); container-independent label order (P7b); one permutation (M7); value columns are never stacked into one array (P17).'
                      ' The group sums are cast to float64 before they are squared in var (D7c); merge target dtype per column (M9); temporal integer views (P24); no operation writes a caller-owned container (O1).'
-                     ' No .mask/.where on converted results (P28); temporal means through pandas objects (P26b).'),
+                     ' No .mask/.where on converted results (P28); temporal means through pandas objects (P26b).'
+                     " Temporal int64 views stay integers up to the restoring cast (T5); the merge of per-chunk partial results, which chunked containers and the threaded path go through, is the reducer's own (M1, M2)."),
         not_decided=["equivalence of containers (third-party conversions)", "integer-sum wrap beyond the accumulator dtype table"],
         technique="path pairing; table laws; dtype provenance",
     ),
@@ -213,7 +216,8 @@ _ALL = {
                      "forwards mask/margins/aggfunc (A3x)."
                      ' Also: complementary row/column level split (P14); margin rows written by assignment, not by a null-skipping writer (P15); the nested-subtotal recursion runs for every requested level (P16).'
                      ' Margin subtotals group observed combinations only and the margin grid is filled with an integer-preserving value (P15b); crosstab hands the requested margin levels - derived from the row/column level split - to the grouping (A3y).'
-                     ' The re-aggregation itself (MG1): a level\'s All rows are the per-group result grouped by exactly the other levels and aggregated with the caller\'s aggregator, nested subtotals by recursion with the same aggregator, the All label moved back to the level\'s position by the inverse permutation, unrequested levels dropped, single-key total = data.agg(agg_func).'),
+                     ' The re-aggregation itself (MG1): a level\'s All rows are the per-group result grouped by exactly the other levels and aggregated with the caller\'s aggregator, nested subtotals by recursion with the same aggregator, the All label moved back to the level\'s position by the inverse permutation, unrequested levels dropped, single-key total = data.agg(agg_func).'
+                     " _add_margins decides 'a list of levels' by dimensionality, not by one concrete container type (MG1)."),
         not_decided=["add_row_margin re-aggregation/re-indexing arithmetic, unstacking and column order"],
         technique="link check; path rule; table; forwarding rule",
     ),
@@ -228,12 +232,13 @@ _ALL = {
         technique="allocation-width rule; fact walker; must-validate",
     ),
     "C16": dict(
-        want=["A3c", "D7", "P5b", "P20", "D7b", "D7c", "P22", "P25"],
+        want=["A3c", "D7", "P5b", "P20", "D7b", "D7c", "P22", "P25", "P5"],
         explanation=("Decides composition consistency: composites forward every semantic parameter to the primitives they are "
                      "defined by (A3c); var uses the three primitives with one shared keyword set and std delegates to var (D7)."
                      ' Also: label-sorted arrays are filtered only by selectors in the same order (P5b); the composites apply no null-suppressing function (P20); the value returned by var is (sum_squares - sum^2/count)/(count - ddof) in canonical arithmetic form and std is its square root (D7b).'
                      ' The sums are squared in float64 (D7c); the non-reduce probe doubles a one-element input by tiling (P22).'
-                     ' apply / median / quantile split the group-sorted rows with counts in label order (P25).'),
+                     ' apply / median / quantile split the group-sorted rows with counts in label order (P25).'
+                     ' apply/median(transform=True) scatter the per-group results through the label permutation (P5).'),
         not_decided=["variance accuracy, quantile equality with NumPy, apply semantics, densities summing to 100"],
         technique="parameter-forwarding over resolved call sites",
     ),
@@ -248,11 +253,12 @@ _ALL = {
         technique="call binding over facade delegations",
     ),
     "C18": dict(
-        want=["A1", "A2", "A9"],
+        want=["A1", "A2", "A9", "A14"],
         explanation=("Decides 'misaligned => some validator runs before any consumer': every array parameter of every public "
                      "entry point reaches a validator that compares with the key length and key index before it is consumed "
                      "(A1); decorator names are real parameters (A2)."
-                     ' Grouping keys and inputs are never re-aligned by label (no reindex/align) before grouping (A9); a parameter re-bound to an index-free copy before validation does not count as validated (A1).'),
+                     ' Grouping keys and inputs are never re-aligned by label (no reindex/align) before grouping (A9); a parameter re-bound to an index-free copy before validation does not count as validated (A1).'
+                     ' _preprocess_arguments validates a snapshot of the inputs taken before timestamp Series are replaced by bare arrays (A14).'),
         not_decided=["that aligned inputs are never rejected", "label alignment inside pandas calls"],
         technique="must-pass-through over the call graph; decorator-name rule",
     ),
@@ -272,7 +278,8 @@ _ALL = {
                      "reduce_1d (P1); null-skip shape of the chunk reducer (N1)."
                      ' Also: the prologue of _nb_reduce (start index and accumulator per case, all-null exit) and the first-non-null scan (N1); per-thread chunks cover the array (P18); the array handed to searchsorted is sorted on every path (P19).'
                      ' Per-thread partial results keep the dtype the reducer produced (D5b); bools_to_categorical packs and decodes the same frame (P23); temporal integer views only after unit normalisation (P24).'
-                     ' The composites: nanmean = nansum/count, nanvar = (SS - S^2/n)/(n - ddof) in canonical arithmetic with all three parts over the same array / axis / skipna / threads, nanstd = nanvar ** 0.5 (NV1); the matrix-vector kernel accumulates a[col][row]*b[col] into a zero-initialised out[row] from a list of columns (ND1); pretty_cut bins with the side that matches its printed right-closed bounds, nulls to no bin, one label per code (PC1).'),
+                     ' The composites: nanmean = nansum/count, nanvar = (SS - S^2/n)/(n - ddof) in canonical arithmetic with all three parts over the same array / axis / skipna / threads, nanstd = nanvar ** 0.5 (NV1); the matrix-vector kernel accumulates a[col][row]*b[col] into a zero-initialised out[row] from a list of columns (ND1); pretty_cut bins with the side that matches its printed right-closed bounds, nulls to no bin, one label per code (PC1).'
+                     ' pretty_cut skips the null assignment only under a flag that implies integer values (PC1).'),
         not_decided=["floating-point equality with NumPy, 2-D axis handling, label formatting of pretty_cut (value-level)"],
         technique="GCNF tables; dispatch folding; path pairing",
     ),
